@@ -147,6 +147,24 @@ Fixpoint run_seq (st : unit) (cs : list call) : list (T * bool * list T) :=
   | c :: r => let '(st', o) := step st c in o :: run_seq st' r
   end.
 
+(** ** Calls abandoned by their integrand.
+    An integrand may end the call that evaluates it by throwing an exception (the library is exception-neutral: it has
+    no try/catch in section 1.1).  A request [(c, k)] is the call [c] whose integrand throws at its [k]-th evaluation
+    ([k = 0]: it never throws).  When [c] makes at least [k] evaluations the call is abandoned and there is no answer
+    ([None]); otherwise it completes and is answered as usual.  Nothing is left behind in either case: the state stays [tt]. *)
+Definition run_call_ab (c : call) (k : nat) : option (T * bool * list T) :=
+  let r := run_call c in
+  if (Nat.leb 1 k && Nat.leb k (length (snd r)))%bool then None else Some r.
+
+Definition step_ab (st : unit) (ck : call * nat) : unit * option (T * bool * list T) :=
+  (st, run_call_ab (fst ck) (snd ck)).
+
+Fixpoint run_seq_ab (st : unit) (cs : list (call * nat)) : list (option (T * bool * list T)) :=
+  match cs with
+  | [] => []
+  | c :: r => let '(st', o) := step_ab st c in o :: run_seq_ab st' r
+  end.
+
 (** ** Re-entrant integrands.
     An integrand may itself use the integrator (Integrate_2D(...,"Adaptive-Simpson") nests Integrate in exactly this
     way; so does an integrand written with GammaQ or a normalised pdf): at the abscissa [x] it makes the call [mk x]
